@@ -1,5 +1,6 @@
 """C13 - date serial numbers: invertible, monotone, Excel 1900 system."""
 import datetime
+import os
 from fractions import Fraction
 
 from hypothesis import strategies as st
@@ -214,6 +215,11 @@ def check_add_days(case):
     n = case['n']
     if a < rd.MAR1_1900:
         raise Skip('start-before-1mar1900')
+    if case.get('derived'):
+        from ..values import SubDatetime, SubInt, SubFloat
+        a = SubDatetime.of(a)
+        if case['derived'] == 2 and not isinstance(n, bool):
+            n = SubInt(n) if isinstance(n, int) else SubFloat(n)
     ref_serial = rd.serial_exact(a) + Fraction(n)
     ref_minus = rd.serial_exact(a) - Fraction(n)
     env = Env(vars={'v_a': a, 'v_n': n})
@@ -248,6 +254,32 @@ def check_add_days(case):
             wants = [rd.from_serial_exact(rd.serial_exact(a) + sign * Fraction(o)) for o in offs]
             if r['error'] is not None or not isinstance(g, list) or len(g) != 3 or not all(close_dt(x, w) for x, w in zip(g, wants)):
                 raise Violation('%s with v_a=%s and offsets %r -> %r, expected the dates %s' % (f, a, offs, r['error'] or g, [str(w) for w in wants]), r['error'] or enc(g), enc(wants))
+
+
+# ---------------------------------------------------------------- the process time zone does not matter
+
+TZ_FORMULAS = ['N(DATE(2019,7,1))', 'DATE(2019,7,1)-DATE(2019,1,1)', 'DAYS(DATE(2019,7,1),DATE(2019,1,1))', 'DATE(2019,3,10)+1', 'DATE(2019,11,3)+1', 'DATEVALUE("2019-07-01")', 'DATEVALUE("2019-03-10 02:30:00")',
+               'N(DATE(1990,4,1))', 'DATE(2019,7,1)=43647', 'DATE(2021,1,1)-0.5', '43647+DATE(1900,3,1)', 'HOUR(43647.5)&":"&MINUTE(43647.5)', 'YEAR(43647)&"-"&MONTH(43647)&"-"&DAY(43647)', 'N(v_d)', 'v_d+40000',
+               'DATE(2019,3,31)-DATE(2019,3,30)', 'DATE(2019,10,27)-DATE(2019,10,26)', 'DATE(2015,6,30)+1.75', 'N("2019-03-31T01:30:00")', 'DATE(9999,12,31)-DATE(1900,3,1)', 'EDATE(DATE(2019,3,31),-1)', 'WEEKDAY(DATE(2019,3,10))']
+ZONES = ['America/New_York', 'Europe/London', 'Australia/Lord_Howe', 'Asia/Tokyo', 'America/St_Johns', 'Pacific/Apia']
+
+
+def enum_tz(tier, shard, nshards):
+    zones = ZONES[:3] if tier == 'quick' else ZONES
+    for i, z in enumerate(zones):
+        if i % nshards == shard:
+            yield z
+
+
+def check_tz(zone):
+    from ..freshproc import run_fresh
+    if not os.path.exists('/usr/share/zoneinfo/' + zone):
+        raise Skip('zone-data-missing')
+    base = run_fresh(TZ_FORMULAS, env_extra={'TZ': 'UTC'})
+    other = run_fresh(TZ_FORMULAS, env_extra={'TZ': zone})
+    for f, a, b in zip(TZ_FORMULAS, base, other):
+        if a != b:
+            raise Violation('in a process whose time zone is %s, %s gives %s; under UTC it gives %s (a serial counts days on the calendar, whatever the zone of the process)' % (zone, f, b, a), b, a)
 
 
 def check_difference(case):
@@ -308,9 +340,11 @@ LAWS = [
                                                         st.tuples(dt_strategy(), st.integers(1, 5000)).map(lambda t: [t[0], (getdt(t[0]) + datetime.timedelta(milliseconds=t[1])).isoformat()] if getdt(t[0]).year < 9999 else [t[0], t[0]])),
         quick=2000, thorough=100000, nontrivial=lambda c: has_time(c[0]) or has_time(c[1]),
         rule='pairs of date-times, arbitrary and 1-5000 ms apart: serials strictly ordered like the date-times; all six comparison operators, N and DATEVALUE agree'),
-    Law('add_days', check_add_days, strategy=st.fixed_dictionaries({'d': dt_strategy(rd.MAR1_ORD), 'n': offsets}), quick=2000, thorough=100000,
+    Law('add_days', check_add_days, strategy=st.fixed_dictionaries({'d': dt_strategy(rd.MAR1_ORD), 'n': offsets, 'derived': st.sampled_from([0, 0, 0, 1, 2])}), quick=2000, thorough=100000,
         nontrivial=lambda c: c['n'] not in (0, 1) ,
-        rule='date-time >= 1 March 1900 and offset n (boundary set, +-3e6 integers, dyadic fractions): date+n, n+date, date-n equal the reference date within 1 ms when it lies in 1 March 1900..9999'),
+        rule='date-time >= 1 March 1900 and offset n (boundary set, +-3e6 integers, dyadic fractions): date+n, n+date, date-n equal the reference date within 1 ms when it lies in 1 March 1900..9999, also element-wise over an array of offsets; in 2 of 5 cases the date-time (and the offset) are instances of classes that derive from datetime (int, float)'),
+    Law('timezone_independence', check_tz, enumerate=enum_tz, shards=(3, 6), guard=400,
+        rule='22 formulas over dates, serials, differences and date text are evaluated in a brand-new interpreter under TZ=UTC and under a zone with daylight saving (New York, London, Lord Howe; in thorough also Tokyo, St John\'s, Apia): every outcome is the same'),
     Law('difference', check_difference, strategy=st.one_of(st.tuples(dt_strategy(rd.MAR1_ORD), dt_strategy(rd.MAR1_ORD)), st.tuples(dt_strategy(rd.MAR1_ORD), dt_strategy(rd.MAR1_ORD)),
                                                             st.tuples(dt_strategy(), dt_strategy())).map(list), quick=2000, thorough=100000,
         classes=lambda c: (('straddles-1mar1900' if (getdt(c[0]) < rd.MAR1_1900) != (getdt(c[1]) < rd.MAR1_1900) else 'same-side'),), required=('straddles-1mar1900',),
